@@ -750,6 +750,18 @@ pub(crate) fn convert_group(
     // clipPaths, masks and filters.
     let object_bbox = g.calculate_object_bbox();
 
+    // An empty element is kept only when its filter resolves to something.
+    // Check this before its `clip-path` and `mask` are resolved, otherwise an element
+    // that is dropped anyway would still register them in the cache.
+    let mut empty_filters = None;
+    if is_empty {
+        let filters = convert_group_filters(node, state, object_bbox, cache)?;
+        if filters.is_empty() {
+            return None;
+        }
+        empty_filters = Some(filters);
+    }
+
     // `mask` and `filter` cannot be set on `clipPath` children.
     // But `clip-path` can.
 
@@ -771,33 +783,9 @@ pub(crate) fn convert_group(
         }
     }
 
-    let filters = {
-        let mut filters = Vec::new();
-        if state.parent_clip_path.is_none() {
-            if node.attribute(AId::Filter) == Some("none") {
-                // Do nothing.
-            } else if node.has_attribute(AId::Filter) {
-                if let Ok(f) = super::filter::convert(node, state, object_bbox, cache) {
-                    filters = f;
-                } else {
-                    // A filter that not a link or a filter with a link to a non existing element.
-                    //
-                    // Unlike `clip-path` and `mask`, when a `filter` link is invalid
-                    // then the whole element should be ignored.
-                    //
-                    // This is kinda an undefined behaviour.
-                    // In most cases, Chrome, Firefox and rsvg will ignore such elements,
-                    // but in some cases Chrome allows it. Not sure why.
-                    // Inkscape (0.92) simply ignores such attributes, rendering element as is.
-                    // Batik (1.12) crashes.
-                    //
-                    // Test file: e-filter-051.svg
-                    return None;
-                }
-            }
-        }
-
-        filters
+    let filters = match empty_filters {
+        Some(filters) => filters,
+        None => convert_group_filters(node, state, object_bbox, cache)?,
     };
 
     let required = opacity.get().approx_ne_ulps(&1.0, 4)
@@ -827,6 +815,43 @@ pub(crate) fn convert_group(
     g.calculate_bounding_boxes();
 
     Some(g)
+}
+
+/// Resolves the `filter` attribute of an element.
+///
+/// Returns `None` when the element must not be rendered at all.
+fn convert_group_filters(
+    node: SvgNode,
+    state: &State,
+    object_bbox: Option<NonZeroRect>,
+    cache: &mut Cache,
+) -> Option<Vec<Arc<filter::Filter>>> {
+    let mut filters = Vec::new();
+    if state.parent_clip_path.is_none() {
+        if node.attribute(AId::Filter) == Some("none") {
+            // Do nothing.
+        } else if node.has_attribute(AId::Filter) {
+            if let Ok(f) = super::filter::convert(node, state, object_bbox, cache) {
+                filters = f;
+            } else {
+                // A filter that not a link or a filter with a link to a non existing element.
+                //
+                // Unlike `clip-path` and `mask`, when a `filter` link is invalid
+                // then the whole element should be ignored.
+                //
+                // This is kinda an undefined behaviour.
+                // In most cases, Chrome, Firefox and rsvg will ignore such elements,
+                // but in some cases Chrome allows it. Not sure why.
+                // Inkscape (0.92) simply ignores such attributes, rendering element as is.
+                // Batik (1.12) crashes.
+                //
+                // Test file: e-filter-051.svg
+                return None;
+            }
+        }
+    }
+
+    Some(filters)
 }
 
 fn convert_path(
